@@ -503,6 +503,50 @@ SKELETONS = [
     ("src/iterator/backend.rs", "poll_signal", [
         ("is_closed", r"\.is_closed\s*\("), ("iter.next", r"\.iter\s*\.next\s*\("),
         ("poll_pending", r"\.poll_pending\s*\("), ("flush", r"\.flush\s*\("), ("pending", r"\.pending\s*\(")]),
+    # built-in actions and glue: what runs inside the delivery, token by token
+    ("src/flag.rs", "register", [
+        ("store.true.seqcst", r"flag\.store\s*\(\s*true\s*,\s*Ordering::SeqCst\s*\)"),
+        ("other.atomic", r"flag\.(?!store\s*\(\s*true\s*,\s*Ordering::SeqCst)\w+\s*\("), ("if", r"\bif\b")]),
+    ("src/flag.rs", "register_usize", [
+        ("store.value.seqcst", r"flag\.store\s*\(\s*value\s*,\s*Ordering::SeqCst\s*\)"),
+        ("other.atomic", r"flag\.(?!store\s*\(\s*value\s*,\s*Ordering::SeqCst)\w+\s*\("), ("if", r"\bif\b")]),
+    ("src/flag.rs", "register_conditional_shutdown", [
+        ("load.seqcst", r"condition\.load\s*\(\s*Ordering::SeqCst\s*\)"),
+        ("other.atomic", r"condition\.(?!load\s*\(\s*Ordering::SeqCst)\w+\s*\("),
+        ("low_level.exit", r"low_level::exit\s*\(\s*status\s*\)"), ("other.exit", r"(?:process::exit|libc::exit|abort)\s*\(")]),
+    ("src/flag.rs", "register_conditional_default", [
+        ("signal_name.check", r"low_level::signal_name\s*\(\s*signal\s*\)\s*\.ok_or_else"),
+        ("load.seqcst", r"condition\.load\s*\(\s*Ordering::SeqCst\s*\)"),
+        ("other.atomic", r"condition\.(?!load\s*\(\s*Ordering::SeqCst)\w+\s*\("),
+        ("emulate", r"low_level::emulate_default_handler\s*\(\s*signal\s*\)")]),
+    ("src/low_level/mod.rs", "exit", [
+        ("_exit", r"libc::_exit\s*\(\s*status\s*\)"), ("other.exit", r"(?:process::exit|libc::exit)\s*\(")]),
+    ("src/low_level/pipe.rs", "wake#1", [
+        ("write", r"WakeMethod::Write\s*=>\s*libc::write\s*\(\s*pipe\s*,\s*data\s*,\s*1\s*\)"),
+        ("send.nowait", r"WakeMethod::Send\s*=>\s*libc::send\s*\(\s*pipe\s*,\s*data\s*,\s*1\s*,\s*MSG_NOWAIT\s*\)"),
+        ("other.call", r"libc::(?!write\s*\(\s*pipe\s*,\s*data\s*,\s*1\s*\)|send\s*\(\s*pipe\s*,\s*data\s*,\s*1\s*,\s*MSG_NOWAIT\s*\))\w+\s*\("),
+        ("loop", r"\b(?:loop|while|for)\b")]),
+    ("src/iterator/backend.rs", "add_signal@registered_signal_ids", [
+        ("lock", r"\.registered_signal_ids\s*\.lock\s*\(\s*\)"),
+        ("tolerant", r"unwrap_or_else\s*\(\s*std::sync::PoisonError::into_inner\s*\)"),
+        ("check.registered", r"lock\[signal as usize\]\.is_some\s*\(\s*\)"), ("return.ok", r"return\s+Ok\s*\(\s*\(\s*\)\s*\)"),
+        ("register", r"\.add_signal\s*\("), ("record", r"lock\[signal as usize\]\s*=\s*Some\s*\(\s*id\s*\)"),
+        ("drop.lock", r"drop\s*\(\s*lock\s*\)")]),
+    ("src/iterator/backend.rs", "add_signal@wake_readers", [
+        ("store", r"\.store\s*\(\s*slot\s*,\s*signal\s*,\s*act\s*\)"), ("wake", r"\.wake_readers\s*\(\s*\)"),
+        ("if", r"\bif\b"), ("register", r"register_sigaction\s*\(")]),
+    ("src/low_level/signal_details.rs", "emulate_default_handler", [
+        ("kill.stop.raise", r"if\s+signal\s*==\s*SIGSTOP\s*\|\|\s*signal\s*==\s*SIGKILL\s*\{\s*return\s+low_level::raise\s*\(\s*signal\s*\)"),
+        ("lookup.exact", r"\.find\s*\(\s*\|d\|\s*d\.signal\s*==\s*signal\s*\)"),
+        ("lookup.other", r"\.find\s*\((?!\s*\|d\|\s*d\.signal\s*==\s*signal\s*\))"),
+        ("unknown.einval", r"ok_or_else\s*\(\s*\|\|\s*Error::from_raw_os_error\s*\(\s*EINVAL\s*\)\s*\)\s*\?"),
+        ("ignore.ok", r"DefaultKind::Ignore\s*=>\s*Ok\s*\(\s*\(\s*\)\s*\)"),
+        ("stop.raise", r"DefaultKind::Stop\s*=>\s*low_level::raise\s*\(\s*SIGSTOP\s*\)"),
+        ("term.restore", r"restore_default\s*\(\s*signal\s*\)"),
+        ("term.unblock.one", r"prepare_sigset\s*\(\s*&mut\s+newsigs\s*,\s*signal\s*\)\s*;[^;]*?libc::sigprocmask\s*\(\s*SIG_UNBLOCK\s*,\s*&newsigs\s*,"),
+        ("term.raise", r"let\s+_\s*=\s*low_level::raise\s*\(\s*signal\s*\)"),
+        ("term.abort", r"libc::abort\s*\(\s*\)"),
+        ("sigfillset", r"sigfillset"), ("setmask", r"SIG_SETMASK")]),
     # the front ends: the blocking readiness callback of `Signals`, `wait`, `forever`, and the adapters
     ("src/iterator/mod.rs", "has_signals", [
         ("loop", r"\bloop\b"), ("while", r"\bwhile\b"), ("for", r"\bfor\b"),
@@ -596,6 +640,7 @@ def extract_skeletons():
     out = []
     last = None
     for rel, fn, toks in SKELETONS:
+        label_fn = fn
         toks = toks if toks is not None else last
         last = toks
         src = strip_comments(read(rel))
@@ -604,6 +649,21 @@ def extract_skeletons():
             src = src[:cut]
         # the action closure of the iterator / the inherent `pending` are the last definitions
         occ = 0
+        want = None
+        if "#" in fn:
+            fn, occ = fn.split("#")[0], int(fn.split("#")[1])
+        if "@" in fn:
+            fn, want = fn.split("@")
+            occ = None
+            for i in range(len(list(re.finditer(r"\bfn\s+%s\b" % re.escape(fn), src)))):
+                try:
+                    if want in fn_body(src, fn, i):
+                        occ = i
+                        break
+                except ExtractError:
+                    pass
+            if occ is None:
+                raise ExtractError("fn %s containing `%s` not found" % (fn, want))
         if fn == "next" and rel.endswith("backend.rs"):
             # `Pending::next`: the `fn next` whose body loads from the exfiltrator
             sigs = [m for m in re.finditer(r"\bfn\s+next\b", src)]
@@ -629,7 +689,7 @@ def extract_skeletons():
             for m in re.finditer(rx, body):
                 found.append((m.start(), label))
         found.sort()
-        out.append((rel, fn, [l for _, l in found]))
+        out.append((rel, label_fn, [l for _, l in found]))
     return out
 
 
